@@ -327,8 +327,8 @@ func (v *vmCase) quiesce() (rounds int, bad string, err error) {
 func runC07(tier string, _ []string) int {
 	c := vlib.NewCtx("C07", tier, "exploration")
 	vlib.SetPortBlock(7)
-	c.SetRule("per case a fresh instance and a real client.Manager for an instrumented client type (vNode, children vChild, parent types group + vParent) registered through the public API; a PRNG history of ~15 operations (create vNode under root / group / nested group / vParent, add and remove vChild, delete and undelete vNodes and the groups holding them, mirror, move, point updates) with 0-40 ms delays injected into the client's Run start / return and at the manager.beforeConstruct / cs.afterStop hook sites; after operations the harness forces a rescan (creating an unrelated node) and waits, in logical steps, for a scan that began afterwards; invariants: I1 never two clients of one placement at once (whole event log), I2 running set == live configured placements with children as constructed == live children (within 6 forced rescans, then stable for 2 more), I3 Manager.Stop stops every client and Run returns. distinct = (operation kinds in the history, rounds needed, number of placements)")
-	c.Assume("the instrumented client's Run returns promptly when Stop is called; undecodable configurations are not generated")
+	c.SetRule("per case a fresh instance and a real client.Manager for an instrumented client type (vNode, children vChild, parent types group + vParent) registered through the public API; a PRNG history of ~15 operations (create vNode under root / group / nested group / vParent, add and remove vChild, delete and undelete vNodes and the groups holding them, mirror, move, point updates, a vNode created with an undecodable configuration that is then corrected) with 0-40 ms delays injected into the client's Run start / return and at the manager.beforeConstruct / cs.afterStop hook sites; after operations the harness forces a rescan (creating an unrelated node) and waits, in logical steps, for a scan that began afterwards; invariants: I1 never two clients of one placement at once (whole event log), I2 running set == live configured placements with children as constructed == live children (within 6 forced rescans, then stable for 2 more), I3 Manager.Stop stops every client and Run returns. distinct = (operation kinds in the history, rounds needed, number of placements)")
+	c.Assume("the instrumented client's Run returns promptly when Stop is called; a configuration that stays undecodable is not generated (the property does not say what should run for it)")
 	nHist := c.N(100, 600)
 	maxDelay := 40
 	wd := c.NewWatchdog()
@@ -417,6 +417,26 @@ func runC07(tier string, _ []string) int {
 					e, err := d.sendEdge(grp, g.Root, data.Points{{Type: data.PointTypeTombstone, Time: d.now(), Value: 1}})
 					if err != nil || e != "" {
 						opErr = fmt.Errorf("delete group: %v %s", err, e)
+					}
+				}
+			case (k == 1 && scenario == 1) || (roll >= 96 && len(containers) >= 2):
+				// a node whose configuration cannot be decoded at first (no client can be built for it)
+				// and is then corrected by an ordinary point write: from then on it is a live configured node
+				op = "undecodable-then-corrected"
+				bad := append(vnodePoints(), data.Point{Type: "chan", Time: d.now(), Value: []float64{-1, 256, 1e9}[r.Intn(3)], Origin: "harness"})
+				var n string
+				n, opErr = mkNode(pick(containers), "vNode", bad)
+				if opErr == nil && r.Chance(0.7) {
+					// let the manager meet the undecodable node in at least one scan
+					if err := v.forceRescan(); err != nil {
+						c.Inconclusive(err.Error())
+						return
+					}
+				}
+				if opErr == nil {
+					e, err := d.sendNode(n, data.Points{{Type: "chan", Time: d.now(), Value: float64(r.Intn(256)), Origin: "harness"}})
+					if err != nil || e != "" {
+						opErr = fmt.Errorf("correcting point refused: %v %s", err, e)
 					}
 				}
 			case roll < 14 || len(containers) < 2:
